@@ -98,3 +98,26 @@ fn a_wait_in_the_other_direction_is_armed_after_an_abandoned_one() {
     let mut fut = Box::pin(a.writable());
     assert!(matches!(fut.as_mut().poll(&mut Context::from_waker(&w2)), Poll::Ready(())));
 }
+
+/// a zero-length chunk is a legitimate write: it completes (with 0) and what follows is still sent
+#[test]
+fn a_chunking_with_an_empty_write_chunk_completes() {
+    let mut el: EventLoop<Option<Vec<u8>>> = EventLoop::try_new().unwrap();
+    let h = el.handle();
+    let (ex, sched) = executor::<Option<Vec<u8>>>().unwrap();
+    h.insert_source(ex, |r, _, out: &mut Option<Vec<u8>>| if r.is_some() { *out = r }).unwrap();
+    let (tx, rx) = UnixStream::pair().unwrap();
+    let (mut tx, mut rx) = (h.adapt_io(tx).unwrap(), h.adapt_io(rx).unwrap());
+    sched.schedule(async move {
+        tx.write_all(b"ab").await.unwrap();
+        assert_eq!(tx.write(&[]).await.unwrap(), 0);
+        tx.write_all(b"cd").await.unwrap();
+        drop(tx);
+        None
+    }).unwrap();
+    sched.schedule(async move { let mut got = vec![]; rx.read_to_end(&mut got).await.unwrap(); Some(got) }).unwrap();
+    let mut out = None;
+    let t = Instant::now();
+    while out.is_none() { el.dispatch(Duration::from_millis(100), &mut out).unwrap(); assert!(t.elapsed() < Duration::from_secs(3), "the writer task never completed after an empty chunk"); }
+    assert_eq!(out.unwrap(), b"abcd");
+}
